@@ -102,7 +102,7 @@ func stateObj(st int) *loglist3.LogStates {
 	case stQualified:
 		return &loglist3.LogStates{Qualified: &ts}
 	case stReadOnly:
-		return &loglist3.LogStates{ReadOnly: &loglist3.ReadOnlyLogState{Timestamp: ts.Timestamp}}
+		return &loglist3.LogStates{ReadOnly: &loglist3.ReadOnlyLogState{LogState: ts}}
 	case stRetired:
 		return &loglist3.LogStates{Retired: &ts}
 	case stRejected:
